@@ -9,22 +9,22 @@ def claim(pid, technique, text, note, design):
     C[pid] = dict(technique=technique, text=text, note=note, design=design)
 
 claim("C01", "property-based fuzzing of token-grammar byte streams in sandboxed worker processes; oracle = no panic/abort per character (panic-signature classification), proptest + ddmin shrinking",
-      "Generated-input exploration: 1.1M (quick) / 15M (thorough) structured streams over all 14 emulation configurations, sizes 1..132 x 1..60 and three buffer shapes, plus two exhaustive tables (every CSI final x intermediate x parameter lists up to 2^31-1 on four screen states; 54 state-setting sequences with huge numbers x every control function), each byte fed through print_char in a worker whose panics, aborts and stack overflows are observed; thorough adds a coverage-guided libFuzzer stage with the same oracle. No proof of absence; coverage of deep DCS/OSC states is measured in the class histogram.",
+      "Generated-input exploration: 1.1M (quick) / 15M (thorough) structured streams over all 14 emulation configurations, sizes 1..132 x 1..60 and three buffer shapes, plus exhaustive tables (every CSI final x intermediate x parameter lists up to 2^31-1 on four screen states; 54 state-setting sequences with huge numbers x every control function; every 1..3-token sequence of the ~90-token control-function alphabet on two sizes, fresh and after text = 3.1M; chains of 1..20000 distinct macros), each byte fed through print_char in a worker whose panics, aborts and stack overflows are observed; thorough adds a coverage-guided libFuzzer stage with the same oracle. No proof of absence; coverage of deep DCS/OSC states is measured in the class histogram.",
       "built with overflow checks and debug assertions on (profile 'checked': a panic that only a debug build would hit counts too); numeric parameters of the long generated streams capped at 9999 (the tables and the big_streams part carry 2^31-1; REP's count stays capped, its run time is C03's open finding); timeouts are inconclusive, not violations; panic signatures come from the current sources", "DESIGN.md 3/C01")
 claim("C03", "metamorphic resource-bound testing: exhaustive control-function table + generated magnitudes, each input measured (CPU of all threads, peak heap via counting allocator) in a sandboxed worker with watchdog; oracle CPU(large) <= max(0.5 s, 50 x CPU(size)), heap <= 256 MiB",
-      "Exhaustive over the control-function table (63 finals x 8 intermediates x ~150 parameter lists x 3 screen prefixes = 228k inputs in quick, all 2^(k-1) fillings in thorough), 173k pairs (state-setting sequence with a huge number, alone or on a screen with an existing region, followed by every control function), macro/sixel/font/Avatar families, header-byte extremes of 7 golden binary files, plus 300k/6M generated CSI sequences with random magnitudes.",
-      "CPU time is the work measure (no iteration counters): loops below ~0.5 s for 2^31-1 are invisible; families with a listed open finding are represented by their witness only (counted as discarded)", "DESIGN.md 3/C03")
+      "Exhaustive over the control-function table (63 finals x 8 intermediates x ~150 parameter lists x 3 screen prefixes = 228k inputs in quick, all 2^(k-1) fillings in thorough), 173k pairs (state-setting sequence with a huge number, alone or on a screen with an existing region, followed by every control function), 1.8M stored-number cases (a sequence that stores 10^6 / 2^31-1 as macro id, font slot, tab stop, saved cursor, palette index or hyperlink id, followed by every control function with every selector 0..=99), the table once more as an ANSI document (43k), macro/sixel/font/Avatar families, header-byte extremes of 7 golden binary files, plus 300k/6M generated CSI sequences with random magnitudes.",
+      "CPU time is the work measure (no iteration counters): loops below ~0.5 s for 2^31-1 are invisible; families with a listed open finding (eight: REP, macro repeat / fan-out, three sixel headers, IcyDraw layer size, document rows following the cursor) are represented by their witness only (counted as discarded)", "DESIGN.md 3/C03")
 claim("C09", "exhaustive small-scope enumeration of token sequences + property-based random streams; state invariant evaluated after every input character",
       "Exhaustive over all 1..3-token sequences of an 80-token control-function alphabet on five screen sizes (3-token part on two sizes in quick, all five in thorough), every CSI final x intermediate x 24 selector-like and boundary parameter lists on ten prepared screens (242k), plus 150k/4M random streams for every emulation; the cursor/geometry invariant is checked after every byte.",
       "a sequence ends at its first violation; panics/aborts end a history without verdict (C01); streams with a resize request (recognised by spelling and by effect) are outside the statement", "DESIGN.md 3/C09")
 claim("C12", "exhaustive per-glyph strip documents (43 font pages x 256 glyphs x 8 neighbour attributes x 2 slot layouts) + property-based layered documents; oracle = byte equality of the reference renderer's RGBA output before/after ColorOptimizer, plus an independent glyph-shape judgement from the font bitmaps",
-      "Every glyph of every built-in font page is exercised exhaustively in a 5x2 strip document; 800k/12M generated documents (1..4 layers, alpha/offset/hidden, up to 3 font slots incl. an edited clone of slot 0's font with a stale cached checksum, palette-inserted RGB colours, bold, storage shapes) with both normalize_whitespaces settings; 3,440 exhaustive strips over the redrawn glyphs of every page's edited clone.",
+      "Every glyph of every built-in font page is exercised exhaustively in a 5x2 strip document; 800k/12M generated documents (1..4 layers, alpha/offset/hidden, up to 3 font slots incl. an edited clone of slot 0's font with a stale cached checksum, palette-inserted RGB colours, bold, storage shapes, attached SAUCE records that contradict the document) with both normalize_whitespaces settings; 3,440 exhaustive strips over the redrawn glyphs of every page's edited clone.",
       "Buffer::render_to_rgba and Buffer::get_char are the reference renderer/compositor (as the property states); layer modes Chars/Attributes, overlay, sixels and chars above 255 are outside the quantifier", "DESIGN.md 3/C12")
 claim("C13", "metamorphic property-based testing (six stacking laws L1..L6 over generated layer stacks) + exhaustive enumeration of all 96^3 three-layer single-cell stacks",
       "500k/12M generated stacks of 1..5 layers (incl. layers shrunk after drawing, pending preview offsets, non-default role / lock flags / title / colour tag) checked against six relational laws at every position of the bounding box + 2; all 884,736 stacks of three 1x1 layers (3 modes x alpha x visible x 8 cell kinds) enumerated exhaustively; separate part for invisible cells carrying non-canonical content.",
       "laws are relational (a consistently wrong colour in transparent-colour resolution is invisible to them); equal default font page on all layers, no overlay layer, precedence between several Chars/Attributes layers not asserted (not in the statement)", "DESIGN.md 3/C13")
 claim("C14", "property-based testing with a reference sixel rasteriser (differential oracle) + exhaustive schedule enumeration (k! completion orders x 2^k poll placements) against a FIFO model through a cfg-guarded decode gate",
-      "Payload part: 400k/12M generated payloads, rectangle law and pixel-exact agreement with an independent rasteriser. Schedule part: for each generated placement of k<=4 images every completion order and every poll placement is executed against the real threads, compared with a FIFO-prefix model after each poll; a blocking poll is detected by the worker watchdog.",
+      "Payload part: 400k/12M generated payloads (raster attributes with 0..6 parameters, repeated and at any position), rectangle law and pixel-exact agreement with an independent rasteriser. Schedule part: for each generated placement of k<=4 images every completion order and every poll placement is executed against the real threads, compared with a FIFO-prefix model after each poll; a blocking poll is detected by the worker watchdog.",
       "completion order is controlled at the granularity 'decode finished' via the icy_engine_verif hook; preemption inside update_sixel_threads (single-threaded code) is not explored", "DESIGN.md 3/C14")
 claim("C19", "exhaustive enumeration against a bit-at-a-time reference (2^16 CRC-16 states x 256 bytes, all 4096 CRC-32 table entries, all 2-byte strings) + property-based random strings",
       "Exhaustive for the CRC-16 update function and the sliced CRC-32 table (which by linearity covers every state); one-shot vs incremental API compared on 1M/40M generated strings with forced lengths around the 16-byte fast path, on 456k exhaustive cases (fill pattern x length 0..=64 x a constant field at every position, each through windows starting 0..=7 bytes after a 16-byte boundary) and 300k/10M structured strings (zero / all-ones / small-number words) at every alignment.",
